@@ -2,7 +2,10 @@
    (harness/root/cmd/c19 fresh -> gen/DrawLog.v, rewritten on every run): crypto/rand.Reader was a
    recording stream; [reads] are its Read(offset, len) calls in order, [handed] the ranges of the stream
    that the secrets handed out occupy (nonce, new_nonce, DH exponent, SRP a, and a session id when it is
-   taken from the stream), [unlocated] the number of secrets whose bytes are not in the served stream. *)
+   taken from the stream; for a value that is no literal slice - rejection sampling, b mod (p-1) - the
+   Reads made during its call), [unlocated] the number of secrets the harness could justify neither way.
+   The ex_ definitions are the same for the run of real key exchanges (real makeAuthKey against the
+   scripted server): what the SERVER received. *)
 From Coq Require Import NArith List.
 From MTV Require Import Misc.Fresh Misc.FreshProofs Props.C19.
 From MTVgen Require DrawLog.
@@ -27,3 +30,17 @@ Print Assumptions C19f_fresh.
 Theorem C19f_disjoint : Forall (fun r => r_end r <= DrawLog.served) DrawLog.handed /\ ForallOrdPairs disjoint DrawLog.handed.
 Proof. exact (proj1 (C19_fresh_ok_exact _ _) C19f_fresh). Qed.
 Print Assumptions C19f_disjoint.
+
+(* the same for the values the scripted server received in the real key exchanges *)
+Theorem C19f_exchange_recorder_is_stream :
+  DrawLog.ex_reads = draws 0 (map snd DrawLog.ex_reads) /\ DrawLog.ex_served = total (map snd DrawLog.ex_reads).
+Proof. vm_compute. split; reflexivity. Qed.
+Print Assumptions C19f_exchange_recorder_is_stream.
+
+Theorem C19f_exchange_all_located : DrawLog.ex_unlocated = 0 /\ (48 <=? N.of_nat (length DrawLog.ex_handed)) = true.
+Proof. vm_compute. split; reflexivity. Qed.
+Print Assumptions C19f_exchange_all_located.
+
+Theorem C19f_exchange_fresh : fresh_ok DrawLog.ex_served DrawLog.ex_handed = true.
+Proof. vm_compute. reflexivity. Qed.
+Print Assumptions C19f_exchange_fresh.
